@@ -33,6 +33,12 @@ pub enum IdOp {
     LookupNamespace(String),
     LookupPrefix(String),
     Parse(String, bool),
+    /// xmlname::OwnedName::new(local, namespace, prefix).to_ref(&mut xot) (registers all three)
+    OwnedToRef(String, String, String),
+    /// ... .maybe_to_ref(&xot) (read-only), compared under a second prefix as well
+    OwnedMaybeToRef(String, String, String, String),
+    /// ... .to_create(&mut xot) and xmlname::CreateName / CreateNamespace constructors
+    CreateViaXmlname(String, String, String),
     Html5,
     /// clone the store and continue on the clone
     ForkContinueOnClone,
@@ -418,6 +424,91 @@ fn apply(w: &mut IdWorld, op: &IdOp, stats: &mut Stats, rng_salt: u64) -> Result
             }
             stats.inc("op/prefix/ok");
         }
+        IdOp::OwnedToRef(l, u, p) => {
+            use xot::xmlname::{NameStrInfo, OwnedName};
+            let owned = OwnedName::new(l.clone(), u.clone(), p.clone());
+            let r = real_call(|| {
+                let rn = owned.to_ref(&mut w.x);
+                let back = rn.to_owned();
+                (rn.name_id(), rn.namespace_id(), rn.prefix_id(), rn.local_name().to_string(), rn.namespace().to_string(), rn.prefix().to_string(), back)
+            });
+            let (nid, nsid, pid, rl, ru, rp, back) = match r {
+                Ok(t) => t,
+                Err(_) => return Err(v("lookup-wrong", format!("OwnedName({:?},{:?},{:?}).to_ref unwinds", l, u, p))),
+            };
+            w.rec_ns(u, nsid)?;
+            w.rec_px(p, pid)?;
+            w.rec_nm(l, u, nid)?;
+            if (&rl, &ru, &rp) != (l, u, p) {
+                return Err(v("lookup-wrong", format!("RefName of ({:?},{:?},{:?}) reads back ({:?},{:?},{:?})", l, u, p, rl, ru, rp)));
+            }
+            if back != owned || back.prefix() != p || back.local_name() != l || back.namespace() != u {
+                return Err(v("lookup-wrong", format!("OwnedName -> RefName -> OwnedName of ({:?},{:?},{:?}) gives {:?}", l, u, p, back)));
+            }
+            stats.inc("op/xmlname_owned_to_ref/ok");
+        }
+        IdOp::OwnedMaybeToRef(l, u, p, p2) => {
+            use std::hash::{Hash, Hasher};
+            use xot::xmlname::OwnedName;
+            let a = OwnedName::new(l.clone(), u.clone(), p.clone());
+            let b = OwnedName::new(l.clone(), u.clone(), p2.clone());
+            // an owned name is its expanded name: the prefix takes no part in equality or hashing
+            let hash = |n: &OwnedName| {
+                let mut h = std::collections::hash_map::DefaultHasher::new();
+                n.hash(&mut h);
+                h.finish()
+            };
+            if a != b || hash(&a) != hash(&b) {
+                return Err(v("lookup-wrong", format!("OwnedName ({:?},{:?}) under prefixes {:?} and {:?} compares / hashes differently", l, u, p, p2)));
+            }
+            let other = OwnedName::new(l.clone(), format!("{}#", u), p.clone());
+            if a == other {
+                return Err(v("id-collision", format!("OwnedName ({:?},{:?}) equals the same local name in another namespace", l, u)));
+            }
+            let expect = if w.ns.contains_key(u) { w.nm.get(&(l.clone(), u.clone())).copied() } else { None };
+            for (o, px) in [(&a, p), (&b, p2)] {
+                let got = match real_call(|| o.maybe_to_ref(&w.x).map(|r| (r.name_id(), r.prefix_id()))) {
+                    Ok(g) => g,
+                    Err(_) => return Err(v("lookup-wrong", format!("OwnedName({:?},{:?},{:?}).maybe_to_ref unwinds", l, u, px))),
+                };
+                if got.map(|g| g.0) != expect {
+                    return Err(v("lookup-wrong", format!("OwnedName({:?},{:?},{:?}).maybe_to_ref finds {:?}, registered is {:?}", l, u, px, got.map(|g| g.0), expect)));
+                }
+                if let Some((_, pid)) = got {
+                    let want = w.px.get(px).copied().unwrap_or(w.x.empty_prefix());
+                    if pid != want {
+                        return Err(v("lookup-wrong", format!("maybe_to_ref of prefix {:?} gives prefix id {:?}, expected {:?}", px, pid, want)));
+                    }
+                }
+            }
+            stats.inc("op/xmlname_owned_maybe_to_ref/ok");
+        }
+        IdOp::CreateViaXmlname(l, u, p) => {
+            use xot::xmlname::{CreateName, CreateNamespace, OwnedName};
+            let r = real_call(|| {
+                let cns = CreateNamespace::new(&mut w.x, p, u);
+                let a = CreateName::namespaced(&mut w.x, l, &cns).name_id();
+                let b = OwnedName::new(l.clone(), u.clone(), p.clone()).to_create(&mut w.x).name_id();
+                let nsid = cns.namespace_id();
+                let c = CreateName::prefixed(&mut w.x, p, l, |q| if q == p { Some(nsid) } else { None }).map(|c| c.name_id());
+                let d = CreateName::name(&mut w.x, l).name_id();
+                (cns.prefix_id(), nsid, a, b, c, d)
+            });
+            let (pid, nsid, a, b, c, d) = match r {
+                Ok(t) => t,
+                Err(_) => return Err(v("lookup-wrong", format!("xmlname constructors unwind for ({:?},{:?},{:?})", l, u, p))),
+            };
+            w.rec_px(p, pid)?;
+            w.rec_ns(u, nsid)?;
+            w.rec_nm(l, u, a)?;
+            w.rec_nm(l, u, b)?;
+            match c {
+                Ok(c) => w.rec_nm(l, u, c)?,
+                Err(e) => return Err(v("lookup-wrong", format!("CreateName::prefixed with a resolving lookup failed: {:?}", e))),
+            }
+            w.rec_nm(l, "", d)?;
+            stats.inc("op/xmlname_create/ok");
+        }
         IdOp::Parse(text, fragment) => {
             let r = real_call(|| if *fragment { w.x.parse_fragment(text) } else { w.x.parse(text) });
             match r {
@@ -626,7 +717,10 @@ fn gen_ops(rng: &mut Rng, run_index: u64) -> Vec<IdOp> {
     // one run shape registers more than 65 536 entries per table
     let bulk_run = run_index % 400 == 7;
     for i in 0..n {
-        let op = match rng.below(20) {
+        let op = match rng.below(23) {
+            20 => IdOp::OwnedToRef(pool(rng), upool(rng), pool(rng)),
+            21 => IdOp::OwnedMaybeToRef(pool(rng), upool(rng), if rng.pct(50) { String::new() } else { pool(rng) }, pool(rng)),
+            22 => IdOp::CreateViaXmlname(pool(rng), upool(rng), pool(rng)),
             0 | 1 | 2 => IdOp::AddName(pool(rng)),
             3 | 4 | 5 => IdOp::AddNameNs(pool(rng), upool(rng)),
             6 => IdOp::AddNamespace(upool(rng)),
